@@ -8,7 +8,7 @@ STRUCT_WEIGHTS = {
     "set_attr": 10, "set_dim": 3, "link_append": 6, "link_remove": 3, "set_metadata": 3,
     "del_metadata": 1, "set_role": 2, "delete": 4, "link_dim": 2, "delete_dims": 0.5, "unlink_dim": 1,
     "restart": 3, "create_property": 3, "prop_values": 3, "sec_dict": 1, "set_odml": 0.5,
-    "create_frame": 1.5, "df_op": 1.5,
+    "create_frame": 1.5, "df_op": 1.5, "set_section_link": 1.5,
 }
 
 
@@ -92,7 +92,7 @@ class C04(Profile):
     name = "C04"
     weights = {"create_block": 2, "create_group": 4, "create_array": 4, "create_tag": 3, "create_mtag": 3,
                "create_feature": 3, "create_source": 5, "create_section": 5, "create_property": 2,
-               "create_frame": 2, "append_dim": 2, "link_dim": 2, "link_append": 14, "set_metadata": 7, "set_role": 3,
+               "create_frame": 2, "set_section_link": 4, "append_dim": 2, "link_dim": 2, "link_append": 14, "set_metadata": 7, "set_role": 3,
                "delete": 10, "link_remove": 5, "del_metadata": 3, "restart": 1}
     DEL_SITES = ("delete", "link_remove", "del_metadata")
     late_ops = ("delete", "link_remove", "del_metadata", "restart")
@@ -177,7 +177,7 @@ class C01(Profile):
     prop = "C01"
     name = "C01"
     weights = {"create_block": 1.5, "create_array": 6, "data_write": 5, "data_assign": 8, "data_append": 8,
-               "data_resize": 5, "data_read": 4, "restart": 4}
+               "data_resize": 5, "data_read": 4, "restart": 4, "data_append_refused": 2}
     reopen_introspect = False
     never_off = ("restart", "create_array", "data_read")
 
@@ -578,7 +578,7 @@ class C18(Profile):
     level = "fault_enumeration"
     weights = {"create_block": 2, "create_array": 5, "append_dim": 7, "create_section": 6, "create_property": 9,
                "prop_values": 3, "set_attr": 5, "create_group": 1, "create_tag": 1, "link_append": 1,
-               "upgrade_experiment": 7, "upgrade_uptodate": 1}
+               "set_section_link": 3, "upgrade_experiment": 7, "upgrade_uptodate": 1}
     owned = ("upgrade_",)
     reopen_introspect = False
     never_off = ("upgrade_experiment", "create_section", "create_property", "create_array", "append_dim")
